@@ -478,6 +478,47 @@ def run(ctx):
                 todo += [s_ for s_ in wb.succ(b_) if s_ in blocks and s_ not in wr]
             okw = okw and bool(wr) and not back
         ctx.ob("MUSTDO", "patch::wipe|every-iteration-writes", okw, "every iteration of the wipe loop passes through write_all (the remaining length only shrinks by bytes actually written)", wb.file, wb.line)
+        # ... and no iteration writes more than what remains: the slice handed to write_all is cut inside the loop, to a
+        # length that depends on a value the loop updates (min(buffer, remaining)); a slice cut once before the loop
+        # rounds a long wipe up to a multiple of the buffer
+        wix = index_of(wb)
+        wdefs = wb.defs()
+        bounded, detail = bool(loops), "no loop"
+        for h, (blocks, _as) in loops.items():
+            variant = {l for l, ds in wdefs.items() if any(d_[1] in blocks for d_ in ds) and any(d_[1] not in blocks for d_ in ds)}
+            for b_ in sorted(blocks):
+                t_ = wb.blocks[b_]["t"]
+                if t_["k"] != "call" or effect_kind(t_.get("res") or "") != "write_all":
+                    continue
+                pl = op_place(t_["args"][1])
+                prod = None
+                for _hop in range(8):
+                    dd_ = wix.single_def(pl["l"]) if pl else None
+                    if not dd_:
+                        break
+                    if dd_[0] == "call":
+                        prod = dd_
+                        break
+                    rv_ = dd_[3].get("rv", {})
+                    if rv_.get("k") == "use":
+                        pl = op_place(rv_["a"])
+                    elif rv_.get("k") in ("ref", "rawptr"):
+                        pl = {"l": rv_["p"]["l"], "p": []}
+                    elif rv_.get("k") == "cast":
+                        pl = op_place(rv_["a"])
+                    else:
+                        break
+                if prod is None:
+                    bounded, detail = False, "the written slice is not produced by a slicing call"
+                    continue
+                inside = prod[1] in blocks
+                dl = set()
+                for a_ in prod[3]["args"][1:]:
+                    dl |= set(derive(wix, a_).locals)
+                dep = bool(dl & variant)
+                detail = f"slice cut by {wix.callee(prod[3]).split('::')[-1]} {'inside' if inside else 'BEFORE'} the loop, its bound {'depends' if dep else 'does NOT depend'} on a value the loop updates"
+                bounded = bounded and inside and dep
+        ctx.ob("MUSTDO", "patch::wipe|write-bounded-by-remaining", bounded, f"wipe: {detail}; each write must be limited to the bytes still to wipe", wb.file, wb.line)
     # AddFile: a block is read from the patch only while the collected data is shorter than the stated file size
     # (a zero-length file carries no block)
     reg = regions.get(("Sqpk", "FileOperation", "AddFile"))
